@@ -1250,13 +1250,23 @@ def _param_paths(prog, mi, fn, e: ast.AST, params: Set[str], skip: Set[int]) -> 
                     # method call on the path root.parts[:-1]
                     recv = ".".join([root] + parts[:-1])
                     reads = None
-                    if len(parts) == 1 and ann.get(root) is not None:
-                        ci = prog.resolve_class(ann[root], mi)
-                        m = prog.find_method(ci, parts[0]) if ci is not None else None
-                        if m is not None:
-                            reads = {recv + "." + x.attr for x in ast.walk(m[1]) if _self_attr(x) and isinstance(x.ctx, ast.Load)}
-                            if any(isinstance(x, ast.Name) and x.id == "self" and not isinstance(parent(x), ast.Attribute) for x in ast.walk(m[1])):
-                                reads = None
+                    if len(parts) == 1:
+                        cands = []
+                        if ann.get(root) is not None:
+                            ci = prog.resolve_class(ann[root], mi)
+                            m = prog.find_method(ci, parts[0]) if ci is not None else None
+                            cands = [m] if m is not None else []
+                        if not cands:
+                            # unannotated parameter: every class of the program that has a method of this name
+                            cands = [(k, k.methods[parts[0]]) for ks in prog.classes.values() for k in ks if parts[0] in k.methods]
+                        if cands:
+                            reads = set()
+                            for k, mfn in cands:
+                                r_ = _receiver_reads(prog, k.mod, mfn, "self")
+                                if r_ is None:
+                                    reads = None
+                                    break
+                                reads |= {recv + "." + a for a in r_}
                     out.update(reads if reads is not None else {recv})
                     for a in p.args:
                         visit(a)
@@ -1266,6 +1276,33 @@ def _param_paths(prog, mi, fn, e: ast.AST, params: Set[str], skip: Set[int]) -> 
         for c in ast.iter_child_nodes(n):
             visit(c)
     visit(e)
+    return out
+
+
+def _receiver_reads(prog, mi, fn, subject: str, depth: int = 2) -> Optional[Set[str]]:
+    """Attributes of `subject` that fn reads; a bare use of the subject as argument of a module-level function is
+    followed into that function; any other bare use means 'the whole object' (None)."""
+    out: Set[str] = set()
+    for x in ast.walk(fn):
+        if isinstance(x, ast.Name) and x.id == subject and isinstance(x.ctx, ast.Load):
+            p = parent(x)
+            if isinstance(p, ast.Attribute) and p.value is x:
+                out.add(p.attr)
+                continue
+            if isinstance(p, ast.Call) and x in p.args and isinstance(p.func, ast.Name) and depth > 0:
+                callee = None
+                for m2 in prog.modules.values():
+                    if p.func.id in m2.functions:
+                        callee = (m2, m2.functions[p.func.id])
+                if callee is not None:
+                    params = [a.arg for a in callee[1].args.args]
+                    i = p.args.index(x)
+                    if i < len(params):
+                        r_ = _receiver_reads(prog, callee[0], callee[1], params[i], depth - 1)
+                        if r_ is not None:
+                            out |= r_
+                            continue
+            return None
     return out
 
 
